@@ -81,7 +81,8 @@ Definition start_q (c : case) : sst :=
 Definition funds_ok (c : case) : bool :=
   (0 <=? s_module (c_init c)) && forallb (fun x => match fst x with Fund a => 0 <=? a | _ => true end) (c_tr c).
 
-(** the schedule where it is claimed ([pre]); the distribution on EVERY trace *)
+(** the schedule where it is claimed ([pre]); the distribution and the integer roll-over on EVERY trace *)
 Definition violates (c : case) : bool :=
   (pre c && negb (Pb_trace (start_q c) (c_tr c))) ||
-  (funds_ok c && negb (Pb_dist (s_params (c_init c)) (s_module (c_init c)) (c_tr c))).
+  (funds_ok c && negb (Pb_dist (s_params (c_init c)) (s_module (c_init c)) (c_tr c))) ||
+  negb (Pb_roll (s_params (c_init c)) (s_module (c_init c)) (peek (s_period (c_init c))) (peek (s_skipped (c_init c))) (c_tr c)).
